@@ -17,7 +17,8 @@ EXPLANATION = (
     "listener-side code; W1 on the encoders. Decides these structural clauses, not value-level round-trip equality."
     ' MAP: v6->v4 normalisation (peer addresses, transparent-proxy destinations) is the exact inverse of v4-mapping (to_ipv4_mapped), never Ipv6Addr::to_ipv4.'
     ' WIRE (buffer mode): the SOCKS5 UDP header and the internal address attribute are laid out identically by encoder and decoder.'
-    ' UDP-LABEL: datagrams read from a listener-side session socket are labelled with the session target after the receive (Frame::recv_from labels with the source).')
+    ' UDP-LABEL: datagrams read from a listener-side session socket are labelled with the session target after the receive (Frame::recv_from labels with the source).'
+    ' LENPFX: every length prefix the frame / SOCKS encoders write is a byte length (never a count of characters or items), and within one encoder a prefix is not paired with a variable-length field nobody measured.')
 RULE_TEXT = "instances = casts, validator clauses, tag tables, refusal edges, set_target call sites"
 TRUSTED = ["UDP payloads are <= 65507 bytes (u16 body length in the RPFM header)", "rustc type checking of integer widths"]
 NOT_DECIDED = ["round-trip equality for all strings", "from_utf8_lossy reinterpretation of non-UTF-8 hosts (recorded as finding candidate F17)"]
@@ -460,6 +461,8 @@ def run(chk, prog):
 
     # ------------------------------------------------------------------ WIRE: the UDP header codecs agree on the header layout
     shared.rule_wire(chk, prog, rule="WIRE", which=("UDP5", "ADDR"))
+    # a host name travels as length byte + bytes: the length written must be the byte length of what is written after it
+    shared.rule_lenpfx(chk, prog, "LENPFX")
 
     # ------------------------------------------------------------------ UDP-LABEL: datagrams of a listener-side session keep the session target
     from . import c10 as _c10
